@@ -1,14 +1,12 @@
 """C14 - Blosc block decompression is independent of how the stream is chunked.
 
-Status: BOUNDED stand-in (exploration), not a proof.  BloscCompressor.decompress is Python object code over memoryviews,
-bytes and numpy buffers whose state variables change *kind* (None / buffer) between iterations; the E1 engine has no
-structural-mode loop invariants yet, so the frame-reassembly state machine is checked by run-time contract evaluation:
-the contract (written from the property statement) is evaluated around the REAL class for an exhaustive enumeration of
-all chunkings of small streams.
-
-Contract evaluated at run time: for a stream S = frames (4-byte big-endian length L_k, payload P_k) and ANY tiling of S
-into read chunks (lengths >= 0), the sequence of blosc.decompress_ptr calls is exactly [(P_k, out + sum_{m<k} n_m)] in order
-and the return value is sum n_m.  compress: frames tile the input in order and decompress(compress(x)) == x.
+* PROVED (E1, contracts/C14d.py): the real BloscCompressor.decompress against a contract whose postcondition does not mention the
+  chunking: for every well-formed frame stream and EVERY tiling into read chunks (any number, lengths >= 0), blosc.decompress_ptr is
+  called exactly once per frame, in order, with that frame's payload bytes and destination out + (sum of earlier return values), and
+  the sum is returned.  `_buffer` changes kind (None / array) between iterations: each loop head is verified once per kind.
+* BOUNDED: the same contract evaluated at run time around the REAL class for an exhaustive enumeration of all chunkings of small
+  streams (cross-check of the encoding, and the source of concrete failing inputs), and the compress -> re-chunk -> decompress round
+  trip (`compress` is a generator over a third-party codec: outside the engine).
 """
 import itertools
 import random
@@ -147,21 +145,40 @@ def judge_roundtrip(dt, n, cbs, seed):
     return None
 
 
+def _stream_worker(t):
+    return judge_stream(t[0], t[1], exhaustive=True)
+
+
+def replayer(o, model):
+    """a failed obligation of the state machine: search the small-stream battery for a concrete chunking that misbehaves"""
+    k = 0
+    for sizes in frame_sets(13):
+        n, why = judge_stream(sizes, k, exhaustive=True)
+        k += 1
+        if why:
+            return True, why
+    return False, None
+
+
 def check(run):
-    run.level = 'exploration'
+    run.level = 'other'
+    from contracts import C14d
+    C14d.lemmas(run)
+    run.prove(C14d.spec_decompress(), replayer)
+    run.discharge()
     max_len = 16 if run.tier == "quick" else 19
     nev, ncfg = 0, 0
     samples = []
     bad = None
-    for sizes in frame_sets(max_len):
-        n, why = judge_stream(sizes, run.seed + ncfg, exhaustive=True)
+    fsets = frame_sets(max_len)
+    res = run.pmap(_stream_worker, [(sizes, run.seed + k) for k, sizes in enumerate(fsets)])
+    for sizes, (n, why) in zip(fsets, res):
         nev += n
         ncfg += 1
         if len(samples) < 3:
             samples.append(dict(frame_payload_sizes=list(sizes), chunkings=n))
         if why and not bad:
             bad = (dict(frames=list(sizes)), why)
-            break
     # longer streams (up to 6 frames, payloads up to 40 bytes): seeded random chunkings incl. byte-wise feeding
     rnd = random.Random(run.seed)
     if not bad:
@@ -196,10 +213,14 @@ def check(run):
     run.add_bounded('compress -> re-chunk -> decompress round trip', n2, n2,
                     'item sizes 1/2/4/8 x array lengths {0,1,2,7,64,65,257} x compression block sizes from one item to 4 MiB; 4 random re-chunkings each',
                     [dict(dtype='float32', n=65, compression_block_size=13)])
-    run.notes.append('no deductive obligations for this property (see DESIGN 6/C14 and 10): the check is the bounded stand-in only')
+    run.notes.append('compress (generator over the third-party codec) and the round trip are bounded only; decompress is proved (contracts/C14d.py)')
     run.assumptions += ['python-blosc is absent offline: decompress_ptr is a recording stand-in (call sequence) or a zlib stand-in (round trip)',
-                        'frame sizes > 0 (a zero length prefix is indistinguishable from "no length yet" in the code)']
-    run.extra['explanation'] = 'bounded run-time contract check of the real class: exhaustive over all chunkings of all streams up to the stated length'
+                        'frame sizes > 0 (a zero length prefix is indistinguishable from "no length yet" in the code)',
+                        'proof: bytes / memoryview / numpy byte buffers modelled as arrays of raw byte values (frombuffer, memoryview, cast, toreadonly are views of the same bytes); '
+                        'struct.unpack("!I") = big-endian value of exactly 4 bytes; python integers unbounded; blosc.decompress_ptr under the call-log contract; '
+                        'no extra keyword arguments; buffers contiguous; the stream ends on a frame boundary']
+    run.extra['explanation'] = ('decompress proved for every stream and every chunking (E1 engine, real AST, loop invariants per structural kind of _buffer); '
+                                'compress and the round trip bounded; the exhaustive small-stream battery cross-checks the encoding')
 
 
 def replay_file(rec, repo):
